@@ -106,6 +106,9 @@ package compile
 //@   requires c != nil && node != nil
 //@   modifies *
 //@   preserves c.filter
+//@   preserves c.typedefChain
+//@   keeps map[parse.Node]bool
+//@   ensures ghost("refChecks") == old(ghost("refChecks"))
 //@   ensures result >= inheritedStatus && forall(k, 0, nstat(node), result >= statusOf(stat(node, k)) && statusOf(stat(node, k)) >= inheritedStatus)
 //@   ensures result == inheritedStatus || exists(k, 0, nstat(node), result == statusOf(stat(node, k)))
 //@   loop 0 invariant c.filter == old(c.filter) && len(looprange) == nstat(node) && forall(i, 0, len(looprange), looprange[i] == stat(node, i) && looprange[i] != nil)
@@ -234,7 +237,7 @@ package compile
 //@   loop 0 invariant inmap(group_map, node_name(g)) && forallstr(k, implies(k != node_name(g), inmap(group_map, k) == old(inmap(group_map, k))))
 
 // Typedef chains: BuildType and BuildBaseType are mutually recursive along a chain of typedefs. The typedef
-// being resolved (t18 = refType) is marked in c.typedefChain before the recursion and was not marked when this
+// being resolved (refType) is marked in c.typedefChain before the recursion and was not marked when this
 // activation started, so the typedefs of the activations on one call chain are pairwise distinct.
 //@ func (*Compiler).BuildType
 //@   assumed
@@ -257,8 +260,8 @@ package compile
 //@ func (*Compiler).BuildBaseType
 //@   requires c != nil && typ != nil
 //@   modifies *
-//@   callsite @BuildType c.typedefChain[t18]
-//@   callsite @BuildType !old(c.typedefChain[t18])
+//@   callsite @BuildType c.typedefChain[refType]
+//@   callsite @BuildType !old(c.typedefChain[refType])
 //@   callsite @BuildType ghost("refChecks") == old(ghost("refChecks")) + 1
 //@ func (*Compiler).makeBuiltinType
 //@   assumed
